@@ -469,6 +469,10 @@ impl Pair {
                     "pre_tx_base": rel20(pre.tx_base, self.cfg.pbase[e]), "pre_tx_next": rel20(pre.tx_next, self.cfg.pbase[e]),
                     "post_tx_base": rel20(post.tx_base, self.cfg.pbase[e]),
                     "rx_alloc": post.rx_alloc, "ackq": post.ackq_len});
+                if kind == "D" {
+                    // what the receiver really holds (buffer sizes), next to its own counter
+                    v["rx_held"] = json!(self.ep[e].hc.as_ref().unwrap().verif_rx_held_bytes());
+                }
                 if self.log_snap {
                     v["snap"] = snap_json(&post, &self.cfg, e);
                 }
